@@ -893,7 +893,20 @@ pub fn parse_query(iter: &mut Iter<'_>) -> Query {
             };
             let right = match iter.peek().cloned().unwrap() {
                 Token::Eof => Conversion::None,
-                Token::Degree(deg) => Conversion::Degree(deg),
+                Token::Degree(deg) => {
+                    iter.next();
+                    match iter.peek().cloned().unwrap() {
+                        Token::Eof | Token::Newline | Token::Comment(_) => Conversion::Degree(deg),
+                        x => {
+                            return Query::Error(format!(
+                                "Temperature conversions must not be compound units: \
+                                 expected eof after {}, got {}",
+                                deg,
+                                describe(&x)
+                            ))
+                        }
+                    }
+                }
                 Token::Plus | Token::Minus => {
                     let mut old = iter.clone();
                     if let Some(off) = parse_offset(iter) {
